@@ -164,7 +164,11 @@ func c18RaceInterp(t *testing.T, c c18RaceCase) kit.Verdict {
 			} else {
 				l := syncx.NewTimeoutLimit(n)
 				run(func(g, r int) {
-					to := time.Duration(r%4) * time.Millisecond
+					// never 0: under -race go1.26.8 crashes (SIGSEGV in
+					// runtime.(*timer).maybeRunChan) when a select inside a bubble
+					// meets an already expired timer on a P without a timer race
+					// context; zero timeouts are covered by the main unit.
+					to := time.Duration(r%4+1) * time.Millisecond
 					begin := time.Now()
 					if err := l.Borrow(to); err != nil {
 						if err != syncx.ErrTimeout {
